@@ -350,6 +350,14 @@ end if""")
         locals_="\n    real(kind=wp), dimension(0:2) :: w3")
     add("decl", {"v": 4}, "tmp(:) = x(:)\nx(:) = y(:)\ny(:) = tmp(:)",
         locals_="\n    real(kind=wp), dimension(n) :: tmp")
+    add("decl", {"v": 5}, "r = third * t + k2",
+        locals_="\n    real(kind=wp) :: third\n    integer :: k2\n    integer, parameter :: dp = 8\n"
+                "    parameter (third = 1.0_dp / 3.0_dp)\n    parameter (k2 = dp + 1)")
+    add("decl", {"v": 6}, "r = c2 * t",
+        locals_="\n    integer, parameter :: p1 = 2\n    integer, parameter :: p2 = p1 * 3\n"
+                "    real(kind=wp), parameter :: c2 = 1.5_wp * p2")
+    add("decl", {"v": 7}, "do i = 1, p3\n  ww(i) = t * i\nend do\nr = ww(p3)",
+        locals_="\n    integer, parameter :: p3 = 3\n    real(kind=wp), dimension(p3) :: ww")
     # ---------------------------------------------------------------- code blocks (kept verbatim)
     add("block", {"v": 1}, "print *, t, k\nr = t")
     add("block", {"v": 2}, "do i = 1, n\n  if (x(i) < 0.0_wp) then\n    print *, i\n  end if\n  y(i) = x(i)\nend do")
